@@ -199,7 +199,7 @@ pub fn run(ctx: &Ctx) -> i32 {
     // 3. structured programs: long Base256 fields, headers
     ctx.seq(|w| {
         w.label(|| "structured programs".into());
-        for l in [1usize, 2, 248, 249, 250, 251, 499, 500, 1304, 1555] {
+        for l in [1usize, 2, 248, 249, 250, 251, 499, 500, 501, 749, 750, 999, 1000, 1249, 1250, 1304, 1499, 1500, 1554, 1555] {
             for fill in [0u8, b'A', 0xFF] {
                 let s: Vec<u8> = (0..l).map(|i| fill.wrapping_add((i % 7) as u8)).collect();
                 for flag in [true, false] {
@@ -240,7 +240,7 @@ pub fn run(ctx: &Ctx) -> i32 {
         "rule": "states = (string, script prefix) nodes of the script tree of the reference encoder R6, transitions = script extensions (mode x run length x termination form); every complete script that R6 can legally realise \
 (strict tier: forms spelled out by ISO/IEC 16022) is materialised for up to 5 admissible real symbol capacities, decoded by R5 (model self-consistency, engine error otherwise) and replayed against data::decode_data and decode_str. \
 Programs: all strings over an 8-letter class alphabet up to the tier's length with all scripts (longer strings with a bounded number of latches); a filler run of 1..kmax characters in each mode (with and without unlatch) followed by every tail of length <= 2 (3) with all scripts; \
-Base256 fields of length 1..1555 with explicit and with zero length; macro 05/06 and FNC1 headers. non-trivial = materialised script with a non-ASCII run.",
+Base256 fields of length 1..1555 (both sides of every multiple of 250) with explicit and with zero length; macro 05/06 and FNC1 headers. non-trivial = materialised script with a non-ASCII run.",
         "exhaustive": true,
         "scripts_materialised": ctx.counter("scripts_materialised"),
         "distinct_run_end_forms": ctx.distinct("run_end_forms"),
